@@ -3,6 +3,8 @@ import KrroodVerif.Model.Dom
 import KrroodVerif.Model.Eql
 import KrroodVerif.Drive.EqlParse
 import KrroodVerif.Drive.C01
+import KrroodVerif.Drive.C08
+import KrroodVerif.Model.RuleHistory
 namespace KrroodVerif.Drive.C03
 open KrroodVerif KrroodVerif.Dom
 
@@ -69,6 +71,98 @@ def runMulti (items : List Sexp) : Option String := do
   let out := " ; ".intercalate outs
   pure s!"model={out}\tspec={out}\ttrig="
 
+
+/-! ### rule-query histories (`Model/RuleHistory.lean`)
+
+`(rhist (dom d…) (root (h e…) (c k…) KID… ) (ops OP…))` with the program syntax of C08 (one rule variable) and
+`OP ::= (start i) | (next i) | (abandon i) | (full i) | (grow KID…)`; `(grow …)` is one more `with query:` block with
+these branches; blocks are numbered in textual order over the whole line.
+
+Observation per operation, RELATIVE to the isolated run (what a freshly written query with the same `with` blocks
+yields when it is evaluated alone): `-` (start/abandon/grow), `=` (the result, or the end, the isolated run has at
+this position; for `full`: the whole isolated sequence), `!c:x` / `!stop` / `![c:x,…]` otherwise. Where two
+conclusions stand in one Python set the model lists the observations of every candidate, joined by `~`. -/
+namespace Rh
+open KrroodVerif.RuleHist KrroodVerif.Rdr
+
+partial def parseOps (blk : Nat) (items : List Sexp) (acc : Array KrroodVerif.Drive.C08.Row) :
+    Option (List HOp × Array KrroodVerif.Drive.C08.Row) :=
+  match items with
+  | [] => some ([], acc)
+  | .list [.atom "start", i] :: rest => do
+    let (r, acc) ← parseOps blk rest acc; pure (HOp.start (← i.asNat?) :: r, acc)
+  | .list [.atom "next", i] :: rest => do
+    let (r, acc) ← parseOps blk rest acc; pure (HOp.next (← i.asNat?) :: r, acc)
+  | .list [.atom "abandon", i] :: rest => do
+    let (r, acc) ← parseOps blk rest acc; pure (HOp.abandon (← i.asNat?) :: r, acc)
+  | .list [.atom "full", i] :: rest => do
+    let (r, acc) ← parseOps blk rest acc; pure (HOp.full (← i.asNat?) :: r, acc)
+  | .list (.atom "grow" :: kids) :: rest => do
+    let (its, acc) ← KrroodVerif.Drive.C08.parseItems kids acc
+    let (r, acc) ← parseOps blk rest acc
+    pure (HOp.grow its :: r, acc)
+  | _ => none
+
+def showR (c x : Nat) : String := s!"{c}:{x}"
+
+/-- all ways to pick one candidate per row (capped) -/
+def combos : List Row → List (List (Nat × Nat))
+  | [] => [[]]
+  | (cs, x) :: rest => let r := combos rest; cs.flatMap fun c => r.map fun l => (c, x) :: l
+
+def dedupS (xs : List String) : List String := xs.foldl (fun acc a => if acc.contains a then acc else acc ++ [a]) []
+
+/-- one operation's observation relative to the isolated run `sp` -/
+def token (got sp : Outp) : String :=
+  match got with
+  | .none => "-"
+  | .err => if sp = .err then "=" else "!err"
+  | .stop => if sp = .stop then "=" else "!stop"
+  | .row (cs, x) =>
+    "~".intercalate (dedupS (cs.map fun c => if sp = .row ([c], x) then "=" else "!" ++ showR c x))
+  | .rows rs =>
+    if (rs.foldl (fun n r => n * r.1.length) 1) > 32 then "*"
+    else
+      let want := match sp with | .rows l => some (l.map fun r => (r.1.headD 0, r.2)) | _ => none
+      "~".intercalate (dedupS ((combos rs).map fun l =>
+        if some l = want then "=" else "![" ++ ",".intercalate (l.map fun r => showR r.1 r.2) ++ "]"))
+
+def tokens (got sp : List Outp) : String := " ".intercalate ((got.zip sp).map fun (g, s) => token g s)
+
+/-- cross-check of the two transcriptions of the generators on the query as first written: one complete evaluation
+by `evalG` and by `Rdr.runK`, as sets of rows -/
+def crossOk (pay : Payload) (dom : List Nat) (a : Authored) : Bool :=
+  match buildA Quirks.today a with
+  | none => true
+  | some b =>
+    match b.tree with
+    | none => true
+    | some t =>
+      let g := (freshRows pay dom (some b)).getD []
+      let k := runK pay Quirks.today.dedup dom b.nodes t
+      let norm := fun (rs : List Row) => dedupS (sortStrings (rs.map fun r => KrroodVerif.Drive.C08.showRow r))
+      norm g == norm k
+
+def run (items : List Sexp) : Option String := do
+  let dom ← KrroodVerif.Drive.C08.nats (← Sexp.field? items "dom")
+  let (a, rows) ← KrroodVerif.Drive.C08.parseRoot (← Sexp.field? items "root")
+  let (ops, rows) ← parseOps a.blk (← Sexp.field? items "ops") rows
+  if rows.toList.any fun r => r.2.isSome then none
+  let pay := Payload.ofList (rows.toList.map (·.1))
+  let sp := spec pay dom a ops
+  let out := fun q => tokens (model q pay dom a ops) sp
+  let trig := (if trigAbandoned ops then ["F-C03-4"] else []) ++ (if trigOverlap ops then ["F-C03-5"] else [])
+    ++ (if trigStaleGrow ops then ["F-C03-6"] else [])
+  if !crossOk pay dom a then pure "model=internal:evalG-vs-evalK\tspec=-\ttrig="
+  else pure ("\t".intercalate
+    [ "model=" ++ out HQuirks.today,
+      "model_fixed=" ++ out HQuirks.repaired,
+      "model_fixed_reset=" ++ out { HQuirks.today with staleSelectorState := false },
+      "model_fixed_surgery=" ++ out { HQuirks.today with staleEvalParent := false },
+      "spec=" ++ tokens sp sp,
+      "trig=" ++ ",".intercalate trig ])
+end Rh
+
 /-- `(sharedsub)`: the fixed witness of F-C03-3 — `xf = x.f; q1 = an(entity(x, xf)); q2 = an(entity(x, xf == False))`,
 then `q1` is evaluated. One attribute node with two parents is outside the tree-shaped grammar of the models, so no
 prediction is made (`*`); the specification is `q1`'s isolated result over `f = T, F, F`. -/
@@ -81,5 +175,6 @@ def run (s : Sexp) : String :=
   | .list [.atom "rulereeval"] => "model=same\tspec=same\ttrig="
   | .list (.atom "sched" :: items) => (runSched items).getD "error=bad-case"
   | .list (.atom "multi" :: items) => (runMulti items).getD "error=bad-case"
+  | .list (.atom "rhist" :: items) => (Rh.run items).getD "error=bad-case"
   | _ => "error=bad-case"
 end KrroodVerif.Drive.C03
